@@ -202,7 +202,9 @@ func asmHistoryGoTest(h asmHistory, sig, what string) string {
 	b.WriteString("\nfunc data(n int) []byte {\n\tb := make([]byte, n)\n\tfor i := range b {\n\t\tb[i] = byte(0xA0 + i*7)\n\t}\n\treturn b\n}\n\n// call runs one emitter call and reports whether it panicked (was refused)\nfunc call(f func()) (refused bool) {\n\tdefer func() { refused = recover() != nil }()\n\tf()\n\treturn\n}\n")
 	m := newModelFor(h.Variant, h.Capacity)
 	fmt.Fprintf(&b, "\nfunc TestReplay(t *testing.T) {\n")
-	if h.Capacity >= 0 {
+	if h.Capacity >= 0 && h.Window {
+		fmt.Fprintf(&b, "\tbacking := bytes.Repeat([]byte{0xC5}, %d)\n\te := asm.NewEmitter(backing[8:%d], %v) // a window of a larger array: len < cap\n", h.Capacity+24, 8+h.Capacity, h.Variant.Listing)
+	} else if h.Capacity >= 0 {
 		fmt.Fprintf(&b, "\te := asm.NewEmitter(make([]byte, %d), %v)\n", h.Capacity, h.Variant.Listing)
 	} else {
 		fmt.Fprintf(&b, "\te := asm.NewEmitter(nil, %v)\n", h.Variant.Listing)
@@ -227,6 +229,9 @@ func asmHistoryGoTest(h asmHistory, sig, what string) string {
 			fmt.Fprintf(&b, "\tfin := %s\n\tif !bytes.Equal(e.Bytes(), fin) {\n\t\tt.Errorf(\"finalized Bytes() = %% x, want %% x\", e.Bytes(), fin)\n\t}\n", goBytes(f.patched))
 		}
 		fmt.Fprintf(&b, "\tif err2 := e.Finalize(); (err2 == nil) != %v {\n\t\tt.Errorf(\"second Finalize() = %%v, want success=%v\", err2)\n\t}\n", f.ok, f.ok)
+	}
+	if h.Capacity >= 0 && h.Window {
+		fmt.Fprintf(&b, "\tfor i, x := range backing {\n\t\tif (i < 8 || i >= %d) && x != 0xC5 {\n\t\t\tt.Errorf(\"byte %%+d relative to the target buffer was overwritten with %%02x\", i-8, x)\n\t\t}\n\t}\n", 8+h.Capacity)
 	}
 	b.WriteString("}\n")
 	return b.String()
